@@ -65,4 +65,33 @@ struct OrderDependent {
     }
 };
 
+unsigned ack_up_to(unsigned first, unsigned h)
+{
+    unsigned n = 0;
+    for (unsigned seq = first; seq <= h; seq++) {              // R7: never false for h == UINT_MAX
+        n++;
+    }
+    return n;
+}
+
+struct Item {
+    QString name;
+    QVector<QString> uris;
+};
+
+struct ItemList {
+    QVector<Item> items;
+    void parseStaleItem(const QDomElement &el)
+    {
+        Item item;                                             // R8: declared outside the loop ...
+        for (QDomElement c = el.firstChildElement(); !c.isNull(); c = c.nextSiblingElement()) {
+            item.name = c.attribute(QStringLiteral("name"));
+            if (c.hasAttribute(QStringLiteral("uri"))) {
+                item.uris << c.attribute(QStringLiteral("uri"));
+            }
+            items.append(item);                                // ... and appended in every iteration
+        }
+    }
+};
+
 }  // namespace qxv_control
